@@ -337,6 +337,49 @@ static void c03_pinpair_phase(int G, int no, double buf) {
     });
 }
 
+
+static int dirmask_start(unsigned f); static int dirmask_end(unsigned f);
+// ---- C03, nested C-bends: two connectors on one column (row) whose free ends may only be left in ONE direction ---------------------
+// Both connectors have to make a C-shaped detour on the same side; when that side is the flank of a rectangle the two middle segments lie
+// on one line against the obstacle and nudging has to separate them WITHOUT pushing one of them into the rectangle.
+static void c03_cbend_phase(int G, int k) {
+    vector<Poly> alpha = shape_alphabet(G, false);
+    ctx.phase(mcx::fmt("C03 orthogonal G=%d rectangles=%d: two connectors on one column/row, all four ends restricted to one direction (C-bends against the same flank), nudging on", G, k));
+    vector<pair<int, int>> iv; for (int a = 0; a <= G; a++) for (int b = a + 1; b <= G; b++) iv.push_back({a, b});
+    for_scenes(alpha, k, 1, true, [&](const vector<Poly> &sc) {
+        if (!ctx.next()) return;
+        ctx.count("states"); ctx.sample("C-bends " + scene_str(sc), 1);
+        vector<Poly> scS = scaled(sc); vector<R> rs; for (auto &p : sc) rs.push_back(toR(p)); OrthoGrid og(G, rs);
+        unsigned dl[4] = {Avoid::ConnDirLeft, Avoid::ConnDirRight, Avoid::ConnDirUp, Avoid::ConnDirDown};
+        for (int d = 0; d < 4; d++) for (int line = 0; line <= G; line++) for (size_t i = 0; i < iv.size(); i++) for (size_t j = i + 1; j < iv.size(); j++) {
+            bool vert = d < 2;   // connectors run along a column and leave sideways, or along a row and leave up/down
+            P e[4] = {vert ? P{line, iv[i].first} : P{iv[i].first, line}, vert ? P{line, iv[i].second} : P{iv[i].second, line}, vert ? P{line, iv[j].first} : P{iv[j].first, line}, vert ? P{line, iv[j].second} : P{iv[j].second, line}};
+            bool freeEnds = true; for (auto &q : e) for (auto &sh : sc) if (inClosed(sh, q)) freeEnds = false; if (!freeEnds) continue;
+            ctx.count("transitions"); ctx.count("evaluations");
+            string desc = mcx::fmt("orthogonal C-bends dir=%u scene ", dl[d]) + scene_str(sc) + mcx::fmt(" conns (%lld,%lld)->(%lld,%lld) (%lld,%lld)->(%lld,%lld)", e[0].x, e[0].y, e[1].x, e[1].y, e[2].x, e[2].y, e[3].x, e[3].y);
+            try {
+                Avoid::Router *r = mk_router(true, 50, 0, sc);
+                Avoid::ConnRef *c1 = mk_conn(r, e[0], e[1], dl[d], dl[d]), *c2 = mk_conn(r, e[2], e[3], dl[d], dl[d]);
+                r->processTransaction();
+                Avoid::ConnRef *cs[2] = {c1, c2};
+                for (int q = 0; q < 2; q++) {
+                    const Avoid::PolyLine &rt = cs[q]->displayRoute(); P a = e[2 * q], b = e[2 * q + 1];
+                    double o = og.best(a.x, a.y, b.x, b.y, 0, dirmask_start(dl[d]), dirmask_end(dl[d]), 2);
+                    if (o > 1e17) { ctx.count("no_free_path"); continue; }
+                    ctx.count("nontrivial");
+                    if (rt.size() < 2) { ctx.violation("route_too_short", {"cbend"}, desc, route_str(rt)); continue; }
+                    if (rt.ps[0].x != a.x * S || rt.ps[0].y != a.y * S || rt.ps[rt.size() - 1].x != b.x * S || rt.ps[rt.size() - 1].y != b.y * S) ctx.violation("endpoints_moved", {"cbend"}, desc, route_str(rt));
+                    bool bad = false;
+                    for (size_t t = 1; t < rt.size() && !bad; t++) for (auto &sh : scS) if (hitsInteriorD(sh, rt.ps[t - 1].x, rt.ps[t - 1].y, rt.ps[t].x, rt.ps[t].y, 1e-6)) { bad = true; ctx.violation("through_shape", {"cbend"}, desc, mcx::fmt("connector %d: ", q) + route_str(rt)); break; }
+                    if (!bad) for (size_t t = 1; t < rt.size(); t++) if (rt.ps[t].x != rt.ps[t - 1].x && rt.ps[t].y != rt.ps[t - 1].y) { ctx.violation("not_orthogonal", {"cbend"}, desc, route_str(rt)); break; }
+                }
+                delete r;
+            } catch (vpsc::CriticalFailure &f) { ctx.library_abort(f.what(), desc); }
+        }
+        ctx.done_case();
+    });
+}
+
 // ---- C04 ------------------------------------------------------------------------------
 static void c04_phase(int G, int k, double penCells, bool tris) {
     vector<Poly> alpha = shape_alphabet(G, tris);
@@ -534,7 +577,8 @@ int main(int argc, char **argv) {
         c03_attached_phase(3, 2, false, 2, 0); c03_attached_phase(3, 2, true, 2, 0); c03_attached_phase(3, 2, true, 2, 1);
         for (int no = 0; no < 5; no++) c03_pinpair_phase(4, no, 0);
         c03_pinpair_phase(4, 2, 4);
-        if (T) { for (int no = 0; no < 5; no++) c03_pinpair_phase(5, no, 0); c03_pinpair_phase(5, 2, 4); }
+        c03_cbend_phase(4, 1); c03_cbend_phase(5, 1); c03_cbend_phase(4, 2);
+        if (T) { c03_cbend_phase(6, 1); c03_cbend_phase(5, 2); for (int no = 0; no < 5; no++) c03_pinpair_phase(5, no, 0); c03_pinpair_phase(5, 2, 4); }
         if (T) { c03_orders_phase(3, 3, 1); c03_orders_phase(4, 2, 1); c03_phase(4, 2, true, 0, false); c03_phase(4, 2, false, 0, false); c03_phase(3, 3, true, 0, false); c03_phase(3, 3, false, 0, false); c03_phase(4, 2, true, 2, false); }
     } else if (PROP == "C04") {
         for (double pen : {0.0, 0.5, 3.0}) { c04_phase(4, 1, pen, true); c04_phase(T ? 4 : 3, 2, pen, true); c04_phase(4, 2, pen, false); }
